@@ -106,6 +106,8 @@ def mutate(rng, base, family):
         store = R.elec_inputs(case)["comp"] if pool is el else R.mech_inputs(case)["comp"]
         old = g[1]["name"]
         g[1]["name"] = g[0]["name"]
+        if "label" in g[0] or "label" in g[1]:          # relabelled plants: the label is the name FEEMS sees
+            g[1]["label"] = g[0].get("label", g[0]["name"])
         store.pop(old, None)
         mut["renamed"] = [old, g[0]["name"]]
     elif family == "wrong-kind":
@@ -160,6 +162,9 @@ def mutate(rng, base, family):
         bad = int(rng.choice([n - 1, n + 1])) if n > 2 else n + 1       # a single value standing for a constant is exempt
         store[nm][field] = (store[nm][field] + [store[nm][field][-1]])[:bad]
         mut.update(component=nm, field=field, bad_length=bad)
+        for holder in (inp, inp.get("flags") or {}, inp.get("mech_flags") or {}):       # the series is handed over as written, not
+            if "constants_single" in holder:                                             # collapsed to one value where it is constant
+                holder["constants_single"] = False
     case["mutation"] = mut
     return case
 
